@@ -82,6 +82,8 @@ def showInstr : QM.VM.Instr → String
   | .get k => s!"get{k}"
   | .equal n => s!"equal{n}"
   | .isType id => s!"istype{id}"
+  | .function i => s!"function{i}"
+  | .call => "call"
   | _ => "?"
 end C0Glue
 
